@@ -56,6 +56,8 @@ def judge_name(c, g):
         want = sorted(([b"sub/"] if c["nested"] else []) + [sub + lock])
         if names(g["after_marker_acquire"]) != want:
             bad.append("files while holding marker: %r, expected %r" % (names(g["after_marker_acquire"]), want))
+        if not g.get("boundary_exists_after_drop", True):
+            bad.append("dropping the lock removed the boundary directory itself (boundary spelling %d)" % c.get("bstyle", 0))
         if names(g["after_marker_drop"]) != names(g["before_marker"]):
             bad.append("drop left something behind: %r" % names(g["after_marker_drop"]))
     return bad
@@ -73,7 +75,8 @@ def run(ctx):
     full = []
     for c in cases:
         for nested in (False, True):
-            full.append(dict(c, op="name", nested=nested))
+            # the boundary directory is spelled plainly, with a trailing slash, with `/.` or with `//`
+            full.append(dict(c, op="name", nested=nested, bstyle=(len(full) // 2) % 4 if nested else 0))
     res = ctx.harness(binary, full)
     for c, r in zip(full, res):
         bad = judge_name(c, r["got"]) if "got" in r else ["crashed: %s" % json.dumps(r)[:200]]
